@@ -98,7 +98,7 @@ fn sizes(thorough: bool, is_fm: bool) -> Vec<usize> {
 pub fn run(ctx: &Ctx, rep: &mut Report) {
     let is_fm = <P as Gx>::IS_FM;
     let leg = if is_fm { "fm" } else { "ris" };
-    let patterns = if ctx.thorough() { 24 } else { 8 };
+    let patterns = if ctx.thorough() { 96 } else { 8 };
     let mut id = 0usize;
     for &k in &sizes(ctx.thorough(), is_fm) {
         for pat in 0..patterns {
@@ -110,7 +110,7 @@ pub fn run(ctx: &Ctx, rep: &mut Report) {
         }
     }
     // refusals
-    let nref = if ctx.thorough() { 24 } else { 6 };
+    let nref = if ctx.thorough() { 96 } else { 6 };
     for r in 0..nref {
         id += 1;
         if !ctx.mine(id) {
